@@ -33,6 +33,9 @@ type recSampler struct {
 }
 
 func (s *recSampler) AddSample(v float64, tags ...string) {
+	if f := s.r.OnSample; f != nil {
+		f(s.kind, s.id) // a user's registry may be slow or yield; called in the sampling goroutine, without the lock
+	}
 	s.r.mu.Lock()
 	s.r.events = append(s.r.events, MetricEvent{Kind: s.kind, ID: s.id, Tags: append(append([]string(nil), s.tags...), tags...), Value: v})
 	s.r.mu.Unlock()
@@ -48,6 +51,9 @@ type RecRegistry struct {
 	registers []string
 	Starts    int
 	Stops     int
+	// OnSample, when set before use, is called at the start of every AddSample (schedule point inside the library's
+	// metric emission; set it once, before the registry is shared).
+	OnSample func(kind, id string)
 }
 
 // NewRecRegistry creates an empty recording registry.
